@@ -15,7 +15,7 @@ LEVEL_TEXT = ("Bounded symbolic execution of the real reverse-mode code (Located
               "z3 decides 'component == textbook partial of the denotation' for ALL points of the domain (sums over repeated variables "
               "and shared nodes appear as sums in the term).")
 BOUNDS = {
-    "quick": {"families": "F1 node lemmas over children A (all share x; extra variables a_i,b_i) and V, DAG sharing (same node under two "
+    "quick": {"families": "F1 node lemmas over children A (all share x; extra variables a_i,b_i) and V, the same nodes under an arbitrary incoming multiplier, DAG sharing (same node under two "
               "parents), products of 3-4 possibly-zero factors, stratified F2, symbolic base/constants, warm caches, both entry points",
               "outside": "deeper trees, n>7, arity>4, rounding size, overflow/underflow"},
     "thorough": {"families": "as quick with n<=7, arity<=4, every 2nd F2 tree, F3 chains (every third), seeded F5",
@@ -36,6 +36,10 @@ def jobs(tier, seed):
         add(d, routes=["rev_all"])
     for d in fam.f1(fam.V, tier):
         add(d, routes=["diff_at_all"])
+    # reverse-mode induction step: the node receives an ARBITRARY incoming multiplier m0 (it sits under a product with a free variable)
+    under = fam.f1(fam.A, "quick")
+    for d in (under if tier == "thorough" else under[::2]):
+        add(["Multiply", ["var", "m0"], d], routes=["rev_all"])
     for d in fam.f1_shared(tier):
         add(d, routes=["rev_all", "diff_at_all"])
         add(d, pre=[["eval", "root", "q"]])
